@@ -73,9 +73,17 @@ class State:
         self.versions.append((heap, self.clock))
         self.facts.extend(axioms)
 
+    _oid = [0]
+
     def new_obj(self, cls):
-        oid = len(self.objs) + 1
-        while oid in self.objs:
-            oid += 1
+        State._oid[0] += 1
+        oid = State._oid[0]
         self.objs[oid] = {}
         return oid
+
+    def fields(self, o):
+        if o.oid not in self.objs:
+            if o.init_fields is None:
+                raise KeyError('object %r unknown in this state' % (o,))
+            self.objs[o.oid] = dict(o.init_fields)
+        return self.objs[o.oid]
